@@ -12,6 +12,7 @@
  *   q        new user query                       a   oldest transmission in flight answered
  *   s r i    ... answered SERVFAIL/REFUSED/NOTIMP x   60 s pass, every attempt in flight times out
  *   c        ares_cancel
+ *   k        the connection of the oldest transmission in flight fails (read error ECONNREFUSED)
  *   w<ms>    the clock advances (only when nothing is in flight, otherwise skipped)
  *   e<id,id,..>  ares_set_servers_ports_csv, also while attempts are in flight: the
  *            transmissions on the connections it closes are dropped
@@ -19,7 +20,8 @@
  * output per event:  "<k> S <n> <unit> | rec rec ... | <server table>"
  *   rec: F<id> G<id> server-state callback failure/success, T<label>@<id> transmission,
  *        D<label>=<status> user callback, R1=<v> R2=<v> random draws of 1 / 2 bytes,
- *        Q<label> a user query with this label is being submitted, E the list update starts
+ *        Q<label> a user query with this label is being submitted, E the list update starts,
+ *        L<id> the connection to server <id> was lost with queries outstanding
  *   table (sorted order of channel->servers): id:idx:failures:probe_pending:retry_sec.usec
  */
 #include "drv_common.h"
@@ -296,6 +298,24 @@ static void run_case(long k, char *line)
       memmove(&g_pend[0], &g_pend[n], sizeof(g_pend[0]) * (size_t)(g_npend - n));
       g_npend -= n;
       ares_process_fd(ch, ARES_SOCKET_BAD, ARES_SOCKET_BAD);
+    } else if (strcmp(u, "k") == 0) {
+      /* the connection the oldest transmission in flight was sent on fails (ICMP port
+       * unreachable -> ECONNREFUSED on the next read) */
+      if (g_npend == 0) {
+        rec(" -");
+      } else {
+        int sock = g_pend[0].sock;
+        int i, j = 0;
+        rec(" L%u", vn_peer_v4(sock) & 0xff);
+        for (i = 0; i < g_npend; i++) {
+          if (g_pend[i].sock != sock) {
+            g_pend[j++] = g_pend[i];
+          }
+        }
+        g_npend                = j;
+        vn_socks[sock].recv_err = ECONNREFUSED;
+        ares_process_fd(ch, VN_FD_BASE + sock, ARES_SOCKET_BAD);
+      }
     } else if (strcmp(u, "c") == 0) {
       ares_cancel(ch);
       g_npend = 0;
